@@ -461,3 +461,84 @@ pub fn h_client_hello_sid33<S: Src>(s: &mut S) {
 // verified modularly instead: mod_client_hello in int_c04_private.rs + leaf_cipher_suites / leaf_compressions)
 harness!(leaf_hs_client_hello_sid33, unwind = 6, h_client_hello_sid33);
 harness!(leaf_hs_certificate_request, unwind = 12, h_certificate_request::<_, 9>);
+
+// ---------------------------------------------------------------- ClientHello (TLS and DTLS): the assertions of the
+// modular harnesses mod_client_hello / mod_client_hello_long / mod_dtls_client_hello (declared, with their contract
+// stubs, in int_c04_private.rs / int_c10_dtls.rs).  Kept here so that the replay crate can run the same assertions on
+// the PUBLIC parser with the inputs Kani found.
+pub enum GotCH<'a> { Tls(TlsClientHelloContents<'a>), Dtls(DTLSClientHello<'a>), Other }
+
+pub fn check_client_hello<'a, S: Src>(s: &mut S, i: &'a [u8], r: IResult<&'a [u8], GotCH<'a>>, dtls: bool) {
+    let n = i.len();
+    if n < 35 { vassert!(s, r.is_err(), "client_hello: truncated before session id length => no value"); return; }
+    let sidlen = i[34] as usize;
+    if sidlen > 32 {
+        vcover!(s, true, "session id length above 32 reached");
+        vassert!(s, class_of(&r) == Class::Error, "client_hello: session-id length above 32 is rejected");
+        return;
+    }
+    let mut o = 35 + sidlen;
+    let mut cookie = (0usize, 0usize);
+    if dtls {
+        if n < o + 1 { vassert!(s, r.is_err(), "dtls client_hello: missing cookie length => no value"); return; }
+        let cl = i[o] as usize;
+        if n < o + 1 + cl { vassert!(s, r.is_err(), "dtls client_hello: truncated cookie => no value"); return; }
+        cookie = (o + 1, cl);
+        o += 1 + cl;
+    }
+    if n < o + 2 { vassert!(s, r.is_err(), "client_hello: truncated session id / cipher length => no value"); return; }
+    let cl = be16(i, o) as usize;
+    o += 2;
+    // (the helpers' call arguments are observable: the stubs return `&arg[len..]`, so a wrong slice or length shifts every
+    //  later field and the final remainder, which the pointer-exact conjuncts below would catch)
+    if !(cl == 0 || (cl % 2 == 0 && cl <= n - o)) {
+        vcover!(s, true, "bad cipher list length reached");
+        vassert!(s, r.is_err(), "client_hello: odd or overlong cipher-suite list is rejected");
+        return;
+    }
+    o += cl;
+    if n < o + 1 { vassert!(s, r.is_err(), "client_hello: missing compression length => no value"); return; }
+    let kl = i[o] as usize;
+    o += 1;
+    if kl > n - o {
+        vcover!(s, true, "overlong compression list reached");
+        vassert!(s, r.is_err(), "client_hello: overlong compression list is rejected");
+        return;
+    }
+    o += kl;
+    let (ext, used) = ref_opt_ext(i, o);
+    vcover!(s, sidlen == 0, "ClientHello without session id reached");
+    vcover!(s, sidlen > 0, "ClientHello with session id reached");
+    vcover!(s, ext.is_some(), "ClientHello with extension block reached");
+    vcover!(s, ext.is_none() && n > o, "ClientHello with malformed extension block reached");
+    match &r {
+        Ok((rem, GotCH::Tls(c))) => {
+            vassert!(s, c.version.0 == be16(i, 0), "client_hello: version exact (any value)");
+            vassert!(s, is_sub(i, c.random, 2, 32), "client_hello: random is bytes 2..34");
+            vassert!(s, match c.session_id { None => sidlen == 0, Some(sid) => sidlen > 0 && is_sub(i, sid, 35, sidlen) }, "client_hello: session id present iff length > 0, verbatim");
+            vassert!(s, ext_matches(i, c.ext, ext), "client_hello: extension block present iff well-formed, verbatim");
+            vassert!(s, is_suffix(i, rem, used), "client_hello: exact consumption");
+        }
+        Ok((rem, GotCH::Dtls(c))) => {
+            vassert!(s, c.version.0 == be16(i, 0), "dtls client_hello: version exact (any value)");
+            vassert!(s, is_sub(i, c.random, 2, 32), "dtls client_hello: random is bytes 2..34");
+            vassert!(s, match c.session_id { None => sidlen == 0, Some(sid) => sidlen > 0 && is_sub(i, sid, 35, sidlen) }, "dtls client_hello: session id present iff length > 0, verbatim");
+            vassert!(s, is_sub(i, c.cookie, cookie.0, cookie.1), "dtls client_hello: cookie verbatim (length 0..255)");
+            vassert!(s, ext_matches(i, c.ext, ext), "dtls client_hello: extension block present iff well-formed, verbatim");
+            vassert!(s, is_suffix(i, rem, used), "dtls client_hello: exact consumption");
+        }
+        _ => vassert!(s, false, "client_hello: well-formed => Ok"),
+    }
+}
+
+/// replay twin of mod_client_hello*: same draws (buffer, length), the public parser, the same assertions
+pub fn h_client_hello_replay<S: Src, const N: usize>(s: &mut S) {
+    let buf: [u8; N] = s.bytes();
+    let n = s.usize();
+    vassume!(s, n <= N);
+    let i = &buf[..n];
+    let r = parse_tls_handshake_client_hello(i).map(|(rem, c)| (rem, GotCH::Tls(c)));
+    check_client_hello(s, i, r, false);
+}
+// replay_alias: mod_client_hello => h_client_hello_replay::<_, 48>
+// replay_alias: mod_client_hello_long => h_client_hello_replay::<_, 80>
